@@ -3,13 +3,16 @@ import JediModel.Model.Refactor
 import JediModel.Gen.C06
 open Lean Proto JediModel.Text JediModel.Tree JediModel.Refactor
 
-def parts := JediModel.Gen.C06.expressionParts
+def rule : ParenRule :=
+  ⟨JediModel.Gen.C06.expressionParts, JediModel.Gen.C06.inlineParensExtraParents,
+   JediModel.Gen.C06.inlineParensDictDoubleStar, JediModel.Gen.C06.inlineParensAttributeSlot⟩
 
 def parseName (j : Json) : NameInfo :=
   { apiType := str j "api_type", hasTree := bool j "has_tree", isDef := bool j "is_def", id := nat j "id",
     pfx := chars j "prefix", parentType := str j "parent_type", parentNext := bool j "parent_next",
     parentId := nat j "parent_id", dotTrailer := bool j "dot_trailer", firstPfx := chars j "first_prefix",
-    before := nats j "before" }
+    before := nats j "before", prevDstar := bool j "prev_dstar", slotParentType := str j "slot_parent_type",
+    slotParentNext := bool j "slot_parent_next", slotPrevDstar := bool j "slot_prev_dstar" }
 
 def parseDef (j : Json) : DefInfo :=
   { stmtType := str j "stmt_type", stmtId := nat j "stmt_id", nDefined := nat j "n_defined",
@@ -32,12 +35,13 @@ def handle (j : Json) : Json :=
       ("ctx", jstr p.1.name), ("parent", jstr p.1.parent), ("template", jstr p.1.template),
       ("rhs", jstr p.2.type), ("sample", jstr p.2.sample),
       ("needs", jbool (needsParens p.1 p.2)),
-      ("jedi", jbool (jediParens parts p.2.type p.1.parent p.1.trailerNext))])
+      ("jedi", jbool (jediParens rule p.2.type p.1.parent p.1.trailerNext p.1.dstar))])
   | "inline" =>
-    match JediModel.Refactor.inline parts ((arr j "names").map parseName) (parseDef (obj j "def")) with
+    match JediModel.Refactor.inline rule ((arr j "names").map parseName) (parseDef (obj j "def")) with
     | .error e => jobj [("error", jstr e)]
     | .ok m => jobj [("map", jmap m)]
-  | "parens" => jbool (jediParens parts (str j "rhs_type") (str j "parent_type") (bool j "parent_next"))
+  | "parens" => jbool (jediParens rule (str j "rhs_type") (str j "parent_type") (bool j "parent_next")
+      (bool j "prev_dstar"))
   | "replace" =>
     match replaceMap indentBlock (bool j "same") (nat j "node0") (chars j "first_prefix") (nat j "ins_id")
         (chars j "ins_prefix") (chars j "ins_value") (nats j "rest") (chars j "replacement")
